@@ -12,7 +12,7 @@ import json, os, re, shutil, subprocess, sys, threading, queue, time
 
 ROOT = '/tmp/vclone/%d' % os.getpid()    # one root per invocation: several matrices may run at the same time
 VERIF = os.path.dirname(os.path.dirname(os.path.abspath(__file__)))
-ALL = 'C01 C02 C03 C04 C05 C06 C07 C08 C09 C10 C11 C12 C13 C14 C15 C16 C17 C19 C20'.split()
+ALL = 'C01 C02 C03 C04 C05 C06 C07 C08 C09 C10 C11 C12 C13 C14 C15 C16 C17 C18 C19 C20'.split()
 
 
 def sh(cmd, **kw):
